@@ -33,20 +33,25 @@ Proof. vm_compute. reflexivity. Qed.
 Lemma policy_covered_computed : policy_covered = true.
 Proof. vm_compute. reflexivity. Qed.
 
+Lemma addrefs_computed : addrefs_ok = true.
+Proof. vm_compute. reflexivity. Qed.
+
 Lemma table_size_computed : (500 <=? List.length accesses)%nat = true.
 Proof. vm_compute. reflexivity. Qed.
 
 Theorem discipline_holds_all :
   (forall r, In r accesses -> row_ok r = true) /\
   roles_consistent = true /\ ctor_helpers_ok = true /\ policy_covered = true /\
-  (500 <= List.length accesses)%nat.
+  (500 <= List.length accesses)%nat /\
+  addrefs_ok = true.
 Proof.
-  split; [|split; [|split; [|split]]].
+  split; [|split; [|split; [|split; [|split]]]].
   - apply forallb_forall. exact rows_ok_computed.
   - exact roles_consistent_computed.
   - exact ctor_helpers_computed.
   - exact policy_covered_computed.
   - apply Nat.leb_le. exact table_size_computed.
+  - exact addrefs_computed.
 Qed.
 
 (* non-vacuity: rows the discipline is really about are present in the table *)
